@@ -1,0 +1,22 @@
+//go:build verif
+
+package spine
+
+import "github.com/enbility/spine-go/api"
+
+// Verification hooks for the event bus (build tag `verif` only).
+
+// VerifSubscribeCore subscribes a handler at the core level, as DeviceLocal does.
+func VerifSubscribeCore(handler api.EventHandlerInterface) error {
+	return Events.subscribe(api.EventHandlerLevelCore, handler)
+}
+
+// VerifUnsubscribeCore removes a core level subscription.
+func VerifUnsubscribeCore(handler api.EventHandlerInterface) error {
+	return Events.unsubscribe(api.EventHandlerLevelCore, handler)
+}
+
+// VerifResetEvents replaces the process-wide bus by a fresh one (between histories).
+func VerifResetEvents() {
+	Events = events{}
+}
